@@ -644,6 +644,13 @@ func (env *Env) isNil(v Val) string {
 
 func (env *Env) trCall(e *E) Val {
 	m := env.m
+	if e.S == "addrOf" && len(e.A) == 1 && e.A[0].K == "id" {
+		// addrOf(v): the address of an address-taken local variable
+		if v, ok := env.vars[e.A[0].S]; ok && v.Loc != nil && v.Loc.Base != "" {
+			return Val{S: v.Loc.Base, Sort: "Int"}
+		}
+		sfail("addrOf(%s): not an address-taken variable in scope", e.A[0].S)
+	}
 	arg := func(i int) Val {
 		if i >= len(e.A) {
 			sfail("%s: missing argument %d", e.S, i)
